@@ -89,9 +89,8 @@ feature_mapping_t base_pairwise_generator_t::make_pairwise(const feature_mapping
             const auto feature1 = mapping1(i1, 0);
             const auto feature2 = mapping2(i2, 0);
 
-            const auto key   = std::make_pair(std::min(feature1, feature2), std::max(feature1, feature2));
-            const auto value = (feature1 <= feature2) ? std::make_pair(i1, i2) : std::make_pair(i2, i1);
-            upairs.try_emplace(key, value);
+            const auto key = std::make_pair(std::min(feature1, feature2), std::max(feature1, feature2));
+            upairs.try_emplace(key, std::make_pair(i1, i2));
         }
     }
 
@@ -100,9 +99,19 @@ feature_mapping_t base_pairwise_generator_t::make_pairwise(const feature_mapping
     tensor_size_t k = 0;
     for (const auto& upair : upairs)
     {
-        const auto [i1, i2]                              = upair.second;
-        feature_mapping.array(k).segment(0, vals1)       = mapping1.array(i1);
-        feature_mapping.array(k++).segment(vals1, vals2) = mapping2.array(i2);
+        // NB: i1 indexes the first mapping and i2 the second one,
+        //     the component with the smaller original feature index is stored first.
+        const auto [i1, i2] = upair.second;
+        if (mapping1(i1, 0) <= mapping2(i2, 0))
+        {
+            feature_mapping.array(k).segment(0, vals1)       = mapping1.array(i1);
+            feature_mapping.array(k++).segment(vals1, vals2) = mapping2.array(i2);
+        }
+        else
+        {
+            feature_mapping.array(k).segment(0, vals2)       = mapping2.array(i2);
+            feature_mapping.array(k++).segment(vals2, vals1) = mapping1.array(i1);
+        }
     }
 
     return feature_mapping;
